@@ -1324,11 +1324,20 @@ def sc_ds_ops(P, which):
             return mk_dataset(P, {'a': var_stub('A', ('x',)), 'b': var_stub('B', ('x', 'y')), 'c': var_stub('C', ())})
 
         def D2(keys=('a', 'b', 'c')):
-            return mk_dataset(P, dict((k, var_stub(k.upper() + '2', {'a': ('x',), 'b': ('x', 'y'), 'c': (), 'd': ('y',)}[k])) for k in keys), 'DS2')
+            dims = {'a': ('x',), 'b': ('x', 'y'), 'c': (), 'd': ('y',)}
+            d = mk_dataset(P, dict((k, var_stub(k.upper() + '2', dims[k])) for k in keys), 'DS2')
+            # a re-indexed copy is another dataset: its variables show it (the library calls other.reindex_like(self) and discards the result - each variable aligns itself)
+            d.methods['reindex_like'] = lambda itp, o, a, k: mk_dataset(P, dict((kk, var_stub('reindex_like(%s, %s)' % (kk.upper() + '2', render(a[0])[:12]), dims[kk])) for kk in keys), 'DS2r')
+            return d
         if which == '_binary_op':
             out.append(('dataset and scalar', lambda: ([D1(), func, 2], {}, {'overrides': ds_overrides(P)})))
             out.append(('dataset and dataset, same keys', lambda: ([D1(), func, D2()], {}, {'overrides': ds_overrides(P), 'oracle': lambda s_: True})))
             out.append(('dataset and dataset, partly other keys', lambda: ([D1(), func, D2(('b', 'd'))], {}, {'overrides': ds_overrides(P), 'oracle': lambda s_: True})))
+            def D2_other_labels():
+                d = D2()
+                d.attrs['axes'].attrs['_list'][0].attrs['values'] = tok('L_x2')       # (the Axis object is shared with the variables)
+                return d
+            out.append(('dataset and dataset, other labels along x', lambda: ([D1(), func, D2_other_labels()], {}, {'overrides': ds_overrides(P), 'oracle': lambda s_: True})))
             out.append(('dataset and a list (invalid)', lambda: ([D1(), func, [1, 2]], {}, {'overrides': ds_overrides(P)})))
         elif which == '_rbinary_op':
             out.append(('scalar and dataset', lambda: ([D1(), func, 2], {}, {'overrides': ds_overrides(P)})))
